@@ -56,11 +56,14 @@ contract(U + "BlockBase.match",
     ensures_local={
         # C08 (U8c/d/e): a block with an end class is returned only if its END was found, with agreeing names and labels
         "end.required@ret4": "implies(result is not None and endcls is not None, found_end and had_match)",
+        # stated over the nodes of the block (the opening statement and the END statement found), not over local copies
         "names.agree@ret4": "implies(result is not None and found_end and match_names, "
-                       "not (given(end_name) and not given(start_name)) "
-                       "and not (given(start_name) and given(end_name) and start_name.lower() != end_name.lower()) "
-                       "and not (strict_match_names and given(start_name) and not given(end_name)))",
-        "labels.agree@ret4": "implies(result is not None and found_end and match_labels, start_label == end_label)",
+                       "not (given(content[len(content) - 1].get_end_name()) and not given(content[start_idx].get_start_name())) "
+                       "and not (given(content[start_idx].get_start_name()) and given(content[len(content) - 1].get_end_name()) "
+                       "and nonnull(content[start_idx].get_start_name()).lower() != nonnull(content[len(content) - 1].get_end_name()).lower()) "
+                       "and not (strict_match_names and given(content[start_idx].get_start_name()) and not given(content[len(content) - 1].get_end_name())))",
+        "labels.agree@ret4": "implies(result is not None and found_end and match_labels, "
+                        "content[start_idx].get_start_label() == content[len(content) - 1].get_end_label())",
         "something_matched@ret4": "implies(result is not None, len(content) > 0 and result[0] == content)",
     },
     # reaching the end of the input is handled inside (get_item returns None): StopIteration never comes out, so the
